@@ -223,6 +223,84 @@ def cody_waite_error(ex, term, K, kmax, p):
     return worst, site
 
 
+def rne(x):
+    """nearest integer of a Fraction, ties to even"""
+    import math
+    f = math.floor(x)
+    r = x - f
+    if r > Fr(1, 2) or (r == Fr(1, 2) and f % 2 == 1):
+        return f + 1
+    return f
+
+
+def nextfloat(v, direction, p):
+    """the neighbour of the p-bit float v (a Fraction, normal range) towards +inf (direction +1) / -inf (-1)"""
+    if v == 0:
+        return v
+    a = abs(v)
+    e = a.numerator.bit_length() - a.denominator.bit_length()
+    if Fr(2) ** e > a:
+        e -= 1
+    ulp = Fr(2) ** (e - p + 1)
+    if (direction > 0) == (v > 0):
+        return v + ulp if v > 0 else v - ulp
+    # towards zero: the ulp below a power of two is half as large
+    if a == Fr(2) ** e:
+        ulp /= 2
+    return v - ulp if v > 0 else v + ulp
+
+
+def scale_range(ex, conds, X, S, c, w, bits):
+    """graceful saturation (statement of C10/C11), the structural part: on the arguments that the saturation selects let
+    through to the kernel, K = nearbyint(c x) must give a valid exponent field -- the scale 2^K is built as the bit pattern
+    (K + bias) << mantissa bits, which is +0 for K + bias = 0, +inf for 2 bias + 1, and wraps into the SIGN bit outside
+    [0, 2 bias + 1] (a negative or NaN-patterned scale: -inf / garbage results next to the thresholds)"""
+    st = T.single_term(ex.atoms[S])
+    if st is not None and st.name == 'pow2floor':
+        return {'form': 'scalef (hardware scaling saturates)', 'ok': True}
+    lo = hi = None
+    p = 24 if bits == 32 else 53
+    condmap = getattr(ex, 'conds', {})
+    for (ck, taken) in conds:
+        t = T.single_term(T.canon(condmap[ck])) if ck in condmap else None
+        if t is None or not (t.name.startswith('f') and t.name[1:] in ('olt', 'ole', 'ult', 'ule')):
+            continue
+        a, b = T.canon(t.ops[0]), T.canon(t.ops[1])
+        xa, xb = T._key(a) == T._key(ex.atoms[X]), T._key(b) == T._key(ex.atoms[X])
+        strict = t.name[2:] == 'lt'
+        try:
+            if xa and T.is_const(b):          # x < C  (taken) / x >= C (not taken)
+                v = RFN.fconst(b)
+                if taken:
+                    v = nextfloat(v, -1, p) if strict else v
+                    hi = v if hi is None else min(hi, v)
+                else:
+                    v = v if strict else nextfloat(v, +1, p)
+                    lo = v if lo is None else max(lo, v)
+            elif xb and T.is_const(a):        # C < x
+                v = RFN.fconst(a)
+                if taken:
+                    v = nextfloat(v, +1, p) if strict else v
+                    lo = v if lo is None else max(lo, v)
+                else:
+                    v = v if strict else nextfloat(v, -1, p)
+                    hi = v if hi is None else min(hi, v)
+        except NotReal:
+            continue
+    bias = 127 if bits == 32 else 1023
+    out = {'form': 'exponent field', 'x_range': (float(lo) if lo is not None else None, float(hi) if hi is not None else None)}
+    if lo is None or hi is None:
+        out.update(ok=False, why='the kernel is not guarded on both sides by comparisons of the argument with constants')
+        return out
+    # K is monotone in the (floating-point) argument: its extremes are taken at the end points, computed exactly as the
+    # code does: the product c x rounded to the format, then rounded to the nearest integer, ties to even
+    kmin, kmax = rne(fl_round(c * lo, p)), rne(fl_round(c * hi, p))
+    out.update(k_range=(kmin, kmax), ok=(kmin + bias >= 0 and kmax + bias <= 2 * bias + 1))
+    if not out['ok']:
+        out['why'] = 'for x in [%.17g, %.17g] K = nearbyint(%.9g x) ranges over [%d, %d]: K + %d leaves [0, %d], the exponent field wraps into the sign bit' % (float(lo), float(hi), float(c), kmin, kmax, bias, 2 * bias + 1)
+    return out
+
+
 # ---------------------------------------------------------------- the exp family: b^X = 2^K * b^(X - K log_b 2)
 def analyse_exp(mod, fname, base, bits):
     term, w = lane_term(mod, fname)
@@ -248,6 +326,7 @@ def analyse_exp(mod, fname, base, bits):
         raise Mismatch('K is not nearbyint(c * X)')
     if c <= 0:
         raise Mismatch('non-positive reduction factor')
+    scale = scale_range(ex, cs[0][0], X, S, c, w, bits)
     g = divide_by_atom(f, S)
     # the reduced argument: g depends on (X, K) through u = X - lam_code * K only
     cx, ck = g.num.get(((X, 1),)), g.num.get(((K, 1),))
@@ -283,7 +362,7 @@ def analyse_exp(mod, fname, base, bits):
     cw, cw_site = cody_waite_error(ex, term, K, kmax, p)
     rho_cw = cw * lnb.mag()                           # an absolute error of the reduced argument is this relative error of b^u
     rho = rho + rho_cw
-    return {'cody_waite_ulp': float(ulps(rho_cw, bits)), 'cody_waite_site': cw_site,'reduced_domain': float(U), 'lambda_code': float(lam_code), 'delta': float(delta), 'kmax': kmax, 'c': float(c),
+    return {'scale': scale, 'cody_waite_ulp': float(ulps(rho_cw, bits)), 'cody_waite_site': cw_site,'reduced_domain': float(U), 'lambda_code': float(lam_code), 'delta': float(delta), 'kmax': kmax, 'c': float(c),
             'kernel_rel_err': float(rho_kernel), 'const_rel_err': float(kappa), 'ulp': float(ulps(rho, bits)), 'ulp_exact': ulps(rho, bits),
             'degree': (N.deg(), D.deg())}
 
@@ -758,7 +837,10 @@ def analyse(job):
         try:
             r = an(mod, 'm_%s_%s' % (fn, tn), par, bits)
             ue = r.pop('ulp_exact')
+            sc = r.pop('scale', None)
             out['res'].append((key, 'ok' if ue <= THR else 'bad', r))
+            if sc is not None:
+                out['res'].append(('scale-range|%s|%s|%s' % (fn, tn, cfgname), 'ok' if sc.get('ok') else 'bad', dict(sc, ulp=0.0, kernel_rel_err=0.0, const_rel_err=0.0, scale_rule=True)))
         except (Mismatch, NotReal) as e:
             out['res'].append((key, 'mismatch', {'why': str(e)[:300]}))
         except (ValueError, KeyError, IndexError, ZeroDivisionError, RecursionError, TypeError, AttributeError) as e:
@@ -826,6 +908,10 @@ def run_for(pid, bits, a):
                         b = d['bad_cell']
                         r.violation(key, 'for a lane holding x = %s the control paths %s and %s (which one runs depends on the OTHER lanes of the batch) give values %.17g and %.17g (read as real functions): %.4g ulp apart, more than twice the bound %s + %s ulp, so on one of them the lane is further than the bound from the function' % (
                             b['x_exact'] if len(b['x_exact']) < 40 else b['x'], b['path_a'] or '(fall-through)', b['path_b'] or '(fall-through)', b['value_a'], b['value_b'], b['spread_ulp'], d['threshold_spread_ulp'] / 2 - float(ROUNDING_ALLOWANCE_ULP), float(ROUNDING_ALLOWANCE_ULP)), dict(d, obligation=key))
+                    continue
+                if key.startswith('scale-range|'):
+                    if st == 'bad':
+                        r.violation(key, 'graceful saturation: %s (the scale 2^K is assembled as (K + bias) << mantissa bits; results next to the threshold are -inf / garbage instead of 0 / +inf)' % d.get('why'), dict(d, obligation=key))
                     continue
                 if '-exp-tiers|' in key:
                     if st == 'bad':
